@@ -4,6 +4,10 @@ import json
 props=[json.loads(l) for l in open('properties.jsonl')]
 TRUST="Trusted base: the Go type checker/SSA builder of x/tools v0.29.0; the std functions on the allow-lists behave as documented; exported operations receive values produced by the repo's constructors."
 claimed={
+'C14':dict(technique="static analysis: abstract position tables of alpine's numeric and suffix-list comparators and stage-order queries on Compare's decision table (AE), against the ranking in the property statement",
+ text="Decided on the abstract decision tables: Compare consults numeric components, then the letter (none first, then alphabetical), then the suffix list, then -rN, each deciding whatever the later parts are; every abstract position world of the suffix-list comparator agrees with alpha<beta<pre<rc<(none)<cvs<svn<git<hg<p, then the suffix number, and an additional suffix makes its version older (pre-release) or newer (post-release); the comparator's result is exactly the position-wise loop's (no fast path or post-adjustment); numeric components without leading zeros compare by integer value at the first and at later positions.",
+ note=TRUST+" Oracle: the ranking and rules of the property statement, not apk-tools. Not decided: differing component counts, leading-zero components, ~hash parts (not claimed by the property); suffix names outside the nine known ones; that numericComponent.value is the integer of the component text (R-NUMPARSE of C03 covers the parse).",
+ design="DESIGN.md 5 (C14)"),
 'C09':dict(technique="static analysis: abstract decision table of pypi's Compare (AE) compared leaf by leaf with the PEP 440 sort key over the same abstract atoms; regexp-group provenance",
  text="pypi's Compare is entirely inside the abstract evaluator's fragment. Decided: epoch decides first and the release next, whatever the later segments; release segments compare as integers with a missing segment equal to 0 (position table of the proven zip loop); with epoch and release equal, every leaf of Compare's abstract decision table gives the sign of the PEP 440 key (dev-of-bare-release < a < b < rc < final < post; dev before its phase; numbers within a phase) for every one of the 1224 pair descriptions compatible with the atoms the code consulted; every spelling of the pattern's phase alternation is ranked. The local-label clause is decided structurally (is the '+' group's field read from Compare) and fails today: known finding.",
  note=TRUST+" Oracle: the ordering rules of the property statement as a key over abstract atoms, not the packaging library. Not decided: the acceptance grammar and separator normalisation; internal order of local labels.",
